@@ -945,6 +945,11 @@ func visitedGuarded(p *Prog, e *Edge) (bool, string) {
 				if !dependsOnParam(iff.Cond, par, map[ssa.Value]bool{}) {
 					continue
 				}
+				// a membership test in a set handed down as another parameter is judged on that parameter (the set
+				// must gain the key before the call and lose only that key afterwards), not on the value it is keyed by
+				if sp := lookupSetParam(iff.Cond, map[ssa.Value]bool{}); sp != nil && sp != par {
+					continue
+				}
 				// the test precedes the site
 				precedes := ib.Dominates(sb) && ib != sb
 				if !precedes {
@@ -974,6 +979,9 @@ func visitedGuarded(p *Prog, e *Edge) (bool, string) {
 				if arg == ssa.Value(par) {
 					// same set: must have been extended before the call
 					if mapUpdateDominates(fn, par, sb, site) {
+						if why := foreignRemoval(fn, par); why != "" {
+							continue // the set can lose the marks of callers that are still open: no guard (seed C08-m)
+						}
 						return true, fmt.Sprintf("membership test on %s returns ErrCircularRef before the call; the set receives the key before the call", par.Name())
 					}
 					continue
@@ -988,6 +996,93 @@ func visitedGuarded(p *Prog, e *Edge) (bool, string) {
 		}
 	}
 	return false, ""
+}
+
+// lookupSetParam: the map-typed parameter whose element lookup v is computed from, if any.
+func lookupSetParam(v ssa.Value, seen map[ssa.Value]bool) *ssa.Parameter {
+	if v == nil || seen[v] {
+		return nil
+	}
+	seen[v] = true
+	if lk, ok := v.(*ssa.Lookup); ok {
+		if par, ok := lk.X.(*ssa.Parameter); ok {
+			if _, isMap := par.Type().Underlying().(*types.Map); isMap {
+				return par
+			}
+		}
+	}
+	if in, ok := v.(ssa.Instruction); ok {
+		for _, op := range in.Operands(nil) {
+			if *op != nil {
+				if par := lookupSetParam(*op, seen); par != nil {
+					return par
+				}
+			}
+		}
+	}
+	return nil
+}
+
+// foreignRemoval: the function removes from the visited set something other than the key it added itself
+// (clear(set), or delete(set, k) for a k it never stored): an enclosing activation's mark can then disappear
+// while that activation is still open, and the membership test no longer sees the cycle.
+func foreignRemoval(fn *ssa.Function, par *ssa.Parameter) string {
+	added := map[string]bool{}
+	for _, b := range fn.Blocks {
+		for _, in := range b.Instrs {
+			if mu, ok := in.(*ssa.MapUpdate); ok && mu.Map == ssa.Value(par) {
+				if ap := accessPath(mu.Key); ap != "" {
+					added[ap] = true
+				}
+			}
+		}
+	}
+	for _, f := range append([]*ssa.Function{fn}, allAnon(fn)...) {
+		for _, b := range f.Blocks {
+			for _, in := range b.Instrs {
+				var cc *ssa.CallCommon
+				switch x := in.(type) {
+				case *ssa.Call:
+					cc = x.Common()
+				case *ssa.Defer:
+					cc = x.Common()
+				case *ssa.Go:
+					cc = x.Common()
+				}
+				if cc == nil {
+					continue
+				}
+				bi, ok := cc.Value.(*ssa.Builtin)
+				if !ok || len(cc.Args) == 0 {
+					continue
+				}
+				isSet := cc.Args[0] == ssa.Value(par)
+				if !isSet && f != fn {
+					// a literal of fn reaching the set through a captured variable
+					if u, ok := cc.Args[0].(*ssa.UnOp); ok {
+						if fv, ok := u.X.(*ssa.FreeVar); ok && fv.Name() == par.Name() {
+							isSet = true
+						}
+					}
+					if fv, ok := cc.Args[0].(*ssa.FreeVar); ok && fv.Name() == par.Name() {
+						isSet = true
+					}
+				}
+				if !isSet {
+					continue
+				}
+				switch bi.Name() {
+				case "clear":
+					return "clear(" + par.Name() + ")"
+				case "delete":
+					if len(cc.Args) < 2 || !added[accessPath(cc.Args[1])] {
+						return "delete of a key this activation did not add"
+					}
+				}
+			}
+		}
+	}
+	return ""
 }
 
 func mapUpdateDominates(fn *ssa.Function, par *ssa.Parameter, sb *ssa.BasicBlock, site ssa.CallInstruction) bool {
